@@ -896,3 +896,17 @@ Lemma driver_shortcuts :
   (forall is_lower lower ws, adj_sorted ws = true -> NoDup (ids_of is_lower lower ws) ->
      fst_new is_lower lower ws = mkfst (map (entry_of is_lower lower) ws) ws).
 Proof. repeat split; [apply lev_fast_correct|apply spec_stream_fast_eq|apply mut_extend_distinct_ids|apply fst_new_bulk]. Qed.
+
+(* the premise of fst_new_agrees_with_mutable is satisfiable (and then FstDictionary::new and
+   MutableDictionary agree, here on a re-cased query) *)
+Lemma fst_new_agrees_example :
+  let ws := [(w_abc, 1); (w_ab, 2); (w_AB ++ [99%N], 3)] in     (* "abc", "ab", "ABc" *)
+  NoDup (ids_of ascii_is_lower ascii_lower [(w_abc, 1); (w_ab, 2)]) /\
+  ~ NoDup (ids_of ascii_is_lower ascii_lower ws) /\
+  fst_exact ascii_is_lower ascii_lower (fst_new ascii_is_lower ascii_lower [(w_abc, 1); (w_ab, 2)]) w_AB = false /\
+  fst_canon ascii_is_lower ascii_lower (fst_new ascii_is_lower ascii_lower [(w_abc, 1); (w_ab, 2)]) w_AB = Some w_ab.
+Proof.
+  cbv zeta. repeat split.
+  - vm_compute. repeat constructor; cbn [In]; intros H; repeat destruct H as [H|H]; try discriminate; exact H.
+  - vm_compute. intros H. inversion H as [|? ? Hn _]; subst. apply Hn. right. now left.
+Qed.
